@@ -1261,7 +1261,7 @@ class Interp:
             from . import builtins_ as B
             return B.dispatch_call(self, ctx, f, args, kwargs)
         if isinstance(f, CachedFunc):
-            return self.call(ctx, f.func, args, kwargs)
+            return self.call_cached(ctx, f, args, kwargs)
         if isinstance(f, StaticMethodVal):
             return self.call(ctx, f.func, args, kwargs)
         if isinstance(f, Obj):
@@ -1271,6 +1271,26 @@ class Interp:
         if isinstance(f, Opaque) and f.attrs.get("call"):
             return f.attrs["call"](ctx, *args, **kwargs)
         raise Unsupported(f"call of {f!r} at {ctx.where}")
+
+    def call_cached(self, ctx, cf, args, kwargs):
+        """functools.lru_cache / cache: a process-wide memo keyed by the argument tuple (objects by identity, data by value),
+        consulted before the body -- modelled as ghost state ctx.ghost['memo:<qualified name>'] (a symbolic map)."""
+        from . import builtins_ as BB
+        from .values import MapVal
+        ctx.assumed_ext.add("functools.lru_cache: memo keyed by the arguments, unbounded for the purposes of the proof (eviction only forgets)")
+        if kwargs:
+            raise Unsupported("keyword arguments to an lru_cache'd function")
+        key = TupleVal(list(args))
+        name = "memo:" + self.full_qualname(cf.func)
+        memo = ctx.ghost.get(name)
+        if memo is None:
+            memo = ctx.ghost[name] = MapVal(lambda q: (z3.BoolVal(False), None), "lru-memo")
+        pres, val = memo.lookup(key)
+        if ctx.branch(pres):
+            return val.val if isinstance(val, BB.OptVal) else val
+        r = self.call(ctx, cf.func, args, kwargs)
+        BB.map_store(self, ctx, memo, key, r)
+        return r
 
     def call_function(self, ctx, f, args, kwargs):
         q = self.full_qualname(f)
